@@ -145,4 +145,9 @@ theorem C20_cx_document_corner : Box.onBorder ⟨57, 0, 57, 295⟩ 1 ⟨111, 295
   unfold Box.onBorder Box.containsTol Box.strictlyInsideTol Box.right Box.bottom
   norm_num
 
+/-- dagre, eight parallel connections between `n1` and `n2`: the outermost one starts 10.5 px left of `n1` -/
+theorem C20_cx_dagre_parallel_spread : ¬ (Box.onBorder ⟨135, 0, 62, 66⟩ 1 ⟨249 / 2, 53556 / 1000⟩) := by
+  unfold Box.onBorder Box.containsTol Box.strictlyInsideTol Box.right Box.bottom
+  norm_num
+
 end D2V.Clip
